@@ -56,7 +56,7 @@ func (in *vfC04Inst) expected(local bool, label string) string {
 		if x == "" {
 			x = "A"
 		}
-		if x == "U" {
+		if x == "U" || x == "N" || x == "Z" {
 			x = "I"
 		}
 		if v.TimeoutMs > 0 && !local {
@@ -87,7 +87,7 @@ func (in *vfC04Inst) expected(local bool, label string) string {
 			x := verdictOf(v)
 			if x == "T" {
 				x = v.Verdict // throttles only apply to the asynchronous stage
-				if x == "U" {
+				if x == "U" || x == "N" || x == "Z" {
 					x = "I"
 				}
 				if x == "" {
@@ -327,6 +327,15 @@ func vfC04Configs(thorough bool) [][]vfValCfg {
 		}
 	}
 	rec(nil, maxK, false)
+	// other out-of-range answers (-1, 3) in every position of a few shapes: "an unknown value" is not Accept
+	for _, odd := range []string{"N", "Z"} {
+		for _, inline := range []bool{true, false} {
+			out = append(out, []vfValCfg{{Name: "V1", Topic: "t", Inline: inline, Gated: !inline, Verdict: odd}})
+			out = append(out, []vfValCfg{{Name: "V1", Inline: inline, Gated: !inline, Verdict: odd}, {Name: "V2", Topic: "t", Inline: true, Verdict: "A"}})
+			out = append(out, []vfValCfg{{Name: "V1", Inline: true, Verdict: "A"}, {Name: "V2", Topic: "t", Inline: inline, Gated: !inline, Verdict: odd}})
+			out = append(out, []vfValCfg{{Name: "V1", Gated: true, Verdict: "A"}, {Name: "V2", Topic: "t", Inline: inline, Gated: !inline, Verdict: odd}})
+		}
+	}
 	// timeouts and throttles on top of a few base shapes
 	for _, v := range verdicts[:2] {
 		out = append(out, []vfValCfg{{Name: "V1", Topic: "t", Gated: true, Verdict: v, TimeoutMs: 500}})
